@@ -17,8 +17,12 @@ static const profile_t PROFILES[] = {
       (1u << A_STOP) | (1u << A_DEREG) | (1u << A_PAUSE) | (1u << A_QUIT) | (1u << A_TELL), 0xf, 0, 0 },
     { "C02", 2, G_LIFE | G_MSG | G_SUB | G_BCAST | G_AUTOFREE | G_QUIT | G_FAULT,           RL_BASE | R_PS | R_FREE,            1, "01000100" "07000100" "07010100" "04000000", 1, 0, 1,
       0, 0, (1u << P_T) | (1u << P_RT) | (1u << P_DOT), (1u << T_T) | (1u << T_TX) | (1u << T_U) },
+    { "C02O", 1, G_SUB | G_QUIT | G_AUTOFREE,                                                  RL_BASE | R_PS | R_FREE,            0, "01000100" "07000100" "07010100" "04000000", 1, 0, 1,
+      0, 0, (1u << P_T) | (1u << P_DOT), (1u << T_T), 0, 0, 0, 1 },
     { "C07", 2, G_CTX | G_REG | G_LIFE | G_REFS | G_ILLEGAL | G_CTXCALL | G_QUIT | G_ARM,  RL_BASE | R_EV,                     1, "", 1, 0, 1 | 4 | 0x80,
       (1u << A_DEREG) | (1u << A_CTXCALL), (1u << CB_START) | (1u << CB_STOP) | (1u << CB_EVT), 0, 0 },
+    { "C07O", 1, G_CTX | G_REG | G_LIFE | G_REFS | G_CTXCALL | G_QUIT,                       RL_BASE | R_EV,                     0, "", 1, 0, 1 | 0x80,
+      0, 0, 0, 0, 0, 0, 0, 2 },
     { "C08", 2, G_LIFE | G_MSG | G_SUB | G_PRIO | G_BCAST | G_PILL | G_QUIT | G_BATCH,               RL_BASE | R_PS | R_FIFO | R_PILL,   0, "01000100" "07000100" "07010100" "04000000", 1, 0, 1,
       0, 0, (1u << P_T) | (1u << P_MOD_STOPPED), (1u << T_T) },
     { "C15", 2, G_REG | G_LIFE | G_MSG | G_SUB | G_PILL | G_ARM | G_ILLEGAL | G_QUIT,       RL_BASE | R_PS | R_NM,              1, "01000100", 1, 0, 0xff,
@@ -30,11 +34,11 @@ static const profile_t PROFILES[] = {
     { "C19", 2, G_REG | G_LIFE | G_SUB | G_QUIT | G_TICK | G_ENV | G_PILL | G_ARM,           RL_BASE | R_PS | R_SY | R_EV,       1, "01000100", 1 | 4, 1, 1,
       (1u << A_DEREG) | (1u << A_STOP) | (1u << A_PAUSE), (1u << CB_START) | (1u << CB_STOP) | (1u << CB_EVT), (1u << P_CTX_STARTED) | (1u << P_CTX_STOPPED) | (1u << P_CTX_TICK) | (1u << P_MOD_STARTED) | (1u << P_MOD_STOPPED), 0 },
     { "C09", 1, G_SRC | G_LIFE | G_ILLEGAL | G_BADPARAM,                                      RL_BASE | R_SR,                     0, "01000100" "07000100", 1, 0, 1,
-      0, 0, 0, 0, 0x7f, 1 | 0x100 },
+      0, 0, 0, 0, 0x7f, 1 | 0x100, 0, 4 },
     { "C09S", 1, G_SUB | G_LIFE | G_ILLEGAL | G_SUBDUP,                                       RL_BASE | R_SR,                     0, "01000100" "07000100", 1, 0, 1,
-      0, 0, (1u << P_T) | (1u << P_U) | (1u << P_RT), 0, 0, 0 },
+      0, 0, (1u << P_T) | (1u << P_U) | (1u << P_RT), 0, 0, 0, 0, 1 },
     { "C09X", 1, G_SRC | G_SUB | G_LIFE | G_ILLEGAL | G_BADPARAM | G_SUBDUP,                  RL_BASE | R_SR,                     0, "01000100" "07000100", 1, 0, 1,
-      0, 0, (1u << P_T) | (1u << P_U) | (1u << P_RT), 0, 0x7f, 1 | 0x100 },
+      0, 0, (1u << P_T) | (1u << P_U) | (1u << P_RT), 0, 0x7f, 1 | 0x100, 0, 4 },
     { "C03", 2, G_SRC | G_READY | G_ENV | G_MSG | G_LIFE | G_QUIT | G_ARM | G_EPOLLFAULT | G_SUB, RL_BASE | R_PS | R_SR | R_LP | R_EV,  1, "01000100" "07000100" "07010100" "04000000", 1, 0, 1,
       (1u << A_ERRNO) | (1u << A_STOP) | (1u << A_PAUSE) | (1u << A_QUIT), (1u << CB_EVT), (1u << P_T), (1u << T_T), (1u << K_FD) | (1u << K_TMR), 1 | 4 },
     { "C03E", 2, G_SRC | G_ENVX | G_LIFE | G_QUIT | G_MSG,                                     RL_BASE | R_PS | R_SR | R_LP | R_EV, 0, "01000100" "07000100" "07010100" "04000000", 1, 0, 1,
@@ -202,7 +206,7 @@ int main(int argc, char **argv) {
     int found = 0;
     for (int i = 0; i < NPROFILES; i++) if (!strcmp(PROFILES[i].prop, PROP)) { P = PROFILES[i]; found = 1; }
     if (!found) { fprintf(stderr, "unknown profile %s\n", PROP); return 2; }
-    for (int i = 1; i < argc - 1; i++) { if (!strcmp(argv[i], "--nmods")) P.nmods = atoi(argv[i + 1]); if (!strcmp(argv[i], "--maxdev")) P.maxdev = atoi(argv[i + 1]); }
+    for (int i = 1; i < argc - 1; i++) { if (!strcmp(argv[i], "--nmods")) P.nmods = atoi(argv[i + 1]); if (!strcmp(argv[i], "--maxdev")) P.maxdev = atoi(argv[i + 1]); if (!strcmp(argv[i], "--keylimit")) P.keylimit = atoi(argv[i + 1]); }
     /* the prelude follows the number of modules: A and B (and C) are registered by it when it registers any */
     static char prel[200];
     if (P.prelude && strstr(P.prelude, "07010100")) {
@@ -211,7 +215,7 @@ int main(int argc, char **argv) {
         P.prelude = prel;
     }
     RULES = P.rules | R_FD; adv_drains = (P.groups & G_BATCH) != 0;
-    snprintf(cfg_str, sizeof cfg_str, "world prop=%s modules=%d maxdev=%d", P.prop, P.nmods, P.maxdev);
+    snprintf(cfg_str, sizeof cfg_str, "world prop=%s modules=%d maxdev=%d%s", P.prop, P.nmods, P.maxdev, P.keylimit == 2 ? " keys/kind=2" : P.keylimit == 3 ? " keys/kind=3" : "");
     pick_names();
     model_reset();            /* computes the pattern/topic match table once, before any fork */
     if (P.kinds & ((1u << K_PATH) | (1u << K_PID) | (1u << K_SGN))) {
